@@ -249,6 +249,14 @@ Definition aowned (a : arena) : list (nat * mgr) := lowned (alist a) ++ blocks_o
 Definition awf (a : arena) : Prop := lwf (alist a) /\ (lhead (alist a) = None -> ablocks a = []).
 Definition ainv (a : arena) (h : heap) : Prop := awf a /\ linv (aowned a ++ aleak a) h.
 
+Lemma ainv_intro : forall l bs sz lk h, lhead l <> None ->
+  linv (lowned l ++ blocks_owned (lm l) bs ++ lk) h -> ainv (mkarena l bs sz lk) h.
+Proof.
+  intros l bs sz lk h HD I. split.
+  - split; [apply lwf_of_head; auto | intros E0; contradiction].
+  - unfold aowned, am. cbn. rewrite <- app_assoc. exact I.
+Qed.
+
 Lemma blocks_owned_app : forall m x y, blocks_owned m (x ++ y) = blocks_owned m x ++ blocks_owned m y.
 Proof. intros; unfold blocks_owned. rewrite map_app, concat_app. reflexivity. Qed.
 
@@ -335,26 +343,20 @@ Proof.
   { intros h5 a2 okr E.
     assert (I1' : linv (lowned l2 ++ blocks_owned (am a1') (ablocks a) ++ aleak a) h2).
     { rewrite AM. exact I2. }
+    assert (NF : forall tg c hh, fuse hh = None -> forall hx, alloc (am a1') tg c hh = (hx, None) -> False).
+    { intros tg c hh Fz hx Ax. destruct (alloc_nofuse (am a1') tg c hh Fz) as [hy [Ay _]]. rewrite Ay in Ax. inversion Ax. }
     destruct (last_full a1') eqn:LF.
-    2:{ inversion E; subst. sp; cbn; auto; try discriminate.
-        - apply lwf_of_head; auto. - intros E0; contradiction.
-        - unfold aowned. cbn. rewrite <- app_assoc. exact I1'.
-        - intros _. apply last_full_nonempty in LF. exact LF. }
+    2:{ inversion E; subst. split; [apply ainv_intro; auto|].
+        sp; cbn; auto; try discriminate. intros _. split; auto. apply last_full_nonempty in LF. exact LF. }
     destruct (alloc (am a1') TAG_ABLK 1 h2) as [h3 [bs|]] eqn:A1.
-    2:{ inversion E; subst. sp; cbn; auto; try discriminate.
-        - apply lwf_of_head; auto. - intros E0; contradiction.
-        - unfold aowned. cbn. rewrite <- app_assoc. eapply linv_throw; eauto.
-        - intros Fz. destruct (alloc_nofuse (am a1') TAG_ABLK 1 h2 (F2 Fz)) as [hx [Ax _]]. rewrite Ax in A1. inversion A1.
-        - intros Fz. destruct (alloc_nofuse (am a1') TAG_ABLK 1 h2 (F2 Fz)) as [hx [Ax _]]. rewrite Ax in A1. inversion A1. }
+    2:{ inversion E; subst. split; [apply ainv_intro; auto; eapply linv_throw; eauto|].
+        sp; cbn; auto; try discriminate. intros Fz. exfalso. eapply NF; eauto. }
     pose proof (linv_alloc _ _ _ _ _ _ _ I1' A1) as I3.
     assert (F3 : fuse h = None -> fuse h3 = None).
     { intros Fz. destruct (alloc_nofuse (am a1') TAG_ABLK 1 h2 (F2 Fz)) as [hx [Ax Fx]]. rewrite Ax in A1. inversion A1; subst; auto. }
     destruct (alloc (am a1') TAG_ASTORE (absize a1') h3) as [h4 [st|]] eqn:A2.
-    2:{ inversion E; subst. sp; cbn; auto; try discriminate.
-        - apply lwf_of_head; auto. - intros E0; contradiction.
-        - unfold aowned. cbn. rewrite <- app_assoc. apply linv_free. eapply linv_throw; eauto.
-        - intros Fz. destruct (alloc_nofuse (am a1') TAG_ASTORE (absize a1') h3 (F3 Fz)) as [hx [Ax _]]. rewrite Ax in A2. inversion A2.
-        - intros Fz. destruct (alloc_nofuse (am a1') TAG_ASTORE (absize a1') h3 (F3 Fz)) as [hx [Ax _]]. rewrite Ax in A2. inversion A2. }
+    2:{ inversion E; subst. split; [apply ainv_intro; auto; apply linv_free; eapply linv_throw; eauto|].
+        sp; cbn; auto; try discriminate. intros Fz. exfalso. eapply NF; eauto. }
     pose proof (linv_alloc _ _ _ _ _ _ _ I3 A2) as I4.
     assert (F4 : fuse h = None -> fuse h4 = None).
     { intros Fz. destruct (alloc_nofuse (am a1') TAG_ASTORE (absize a1') h3 (F3 Fz)) as [hx [Ax Fx]]. rewrite Ax in A2. inversion A2; subst; auto. }
@@ -362,23 +364,21 @@ Proof.
     { eapply linv_perm; [|exact I4]. permp. }
     destruct (construct_node TAG_ANODE l2 (length (lnodes l2)) h4) as [[h6 l3] ok3] eqn:C.
     pose proof (construct_node_spec _ _ _ _ _ _ _ _ I4' C) as [I5 [H5 [M5 T5]]].
+    assert (CF : fuse h = None -> ok3 = true /\ fuse h6 = None).
+    { intros Fz. unfold construct_node in C. destruct (lfree l2); [|inversion C; subst; auto].
+      destruct (alloc_nofuse (lm l2) TAG_ANODE 1 h4 (F4 Fz)) as [hx [Ax Fx]]. rewrite Ax in C. inversion C; subst; auto. }
     destruct ok3; inversion E; subst; clear E.
-    - sp; cbn; auto; try discriminate; try congruence.
-      + apply lwf_of_head; congruence. + intros E0; congruence.
-      + unfold aowned. cbn [alist ablocks aleak am]. rewrite blocks_owned_app.
+    - split.
+      + apply ainv_intro; [congruence|]. rewrite blocks_owned_app.
         eapply linv_perm; [|exact I5]. unfold am in *. cbn [alist] in *. rewrite M5.
         unfold blocks_owned at 3. unfold bowned. cbn. permp.
-      + destruct (ablocks a); discriminate.
-      + intros Fz. unfold construct_node in C. destruct (lfree l2); [|inversion C; subst; auto].
-        destruct (alloc_nofuse (lm l2) TAG_ANODE 1 h4 (F4 Fz)) as [hx [Ax Fx]]. rewrite Ax in C. inversion C; subst; auto.
-    - destruct (T5 eq_refl) as [-> L]. sp; cbn; auto; try discriminate.
-      + apply lwf_of_head; auto. + intros E0; contradiction.
-      + unfold aowned. cbn [alist ablocks aleak am]. eapply linv_perm; [|exact I5]. permp.
-      + right. exists bs, st. rewrite AM. reflexivity.
-      + intros Fz. unfold construct_node in C. destruct (lfree l3); [|inversion C].
-        destruct (alloc_nofuse (lm l3) TAG_ANODE 1 h4 (F4 Fz)) as [hx [Ax Fx]]. rewrite Ax in C. inversion C.
-      + intros Fz. unfold construct_node in C. destruct (lfree l3); [|inversion C].
-        destruct (alloc_nofuse (lm l3) TAG_ANODE 1 h4 (F4 Fz)) as [hx [Ax Fx]]. rewrite Ax in C. inversion C. }
+      + sp; cbn; auto; try discriminate; try congruence.
+        intros _. split; auto. destruct (ablocks a); discriminate.
+    - destruct (T5 eq_refl) as [-> L]. split.
+      + apply ainv_intro; auto. eapply linv_perm; [|exact I5]. permp.
+      + sp; cbn; auto; try discriminate.
+        * right. exists bs, st. rewrite AM. reflexivity.
+        * intros Fz. destruct (CF Fz); discriminate. }
   match type of H with (match ?r with _ => _ end) = _ => destruct r as [[h5 a2] okr] eqn:ER end.
   apply R in ER. destruct ER as [[[Wl2 Wb2] I5] [AM2 [BS2 [HD2 [LK [OKL FZ]]]]]].
   destruct okr.
